@@ -101,7 +101,12 @@ def m_output_result(out, mc, results):
     cex = None
     n_checked = 0
     seen_shapes = set()
+    deadline = time.time() + float(os.environ.get("VERIF_SYMEX_BUDGET_S", "600"))
     for p in rets:
+        if time.time() > deadline:
+            # not a verdict: the obligation stays open and only a native confirmation can turn it into a VIOLATION
+            fails_exit.append("the per-path analysis exceeded its time budget after %d of %d paths" % (n_checked, len(rets)))
+            break
         r = p.ret
         if not (isinstance(r, symex.Agg) and r.variant == "Ready"):
             continue  # Pending returns do not occur (awaits complete)
